@@ -238,14 +238,14 @@ const TYPE_WRAPS: &[&str] = &[
     "Option<__>", "&'a __", "[__; N]", "fn(__) -> __", "Box<__>", "(__,)", "*mut __", "&__",
     "[__]", "(__)", "Vec<__>", "(__, __)", "&mut __", "PhantomData<__>", "<__ as Tr>::Assoc",
 ];
-const GENERIC_PARAMS: &[&str] = &[
+pub const GENERIC_PARAMS: &[&str] = &[
     "T", "U", "'a", "'b", "const N: usize", "T: Clone", "T: ?Sized", "T = u8",
     "const M: usize = 3", "r#type", "H", "'a: 'b", "T: Tr<U>", "T: for<'x> Fn(&'x u8)", "Self_",
     "A", "F: Fn(T) -> T", "T: 'a + Copy", "const B: bool",
     "'static_", "'r#type", "'_a", "\u{e9}", "\u{540d}: Clone", "const \u{3b1}: usize", "'\u{e9}", "T: ?Sized + 'a",
     "const N: usize = { 1 + 1 }", "T: Tr<A = u8>", "T: Tr<{ 1 }>", "#[cfg(x)] T", "#[ord(ignore)] T",
 ];
-const WHERE_PREDS: &[&str] = &[
+pub const WHERE_PREDS: &[&str] = &[
     "T: Copy",
     "for<'b> &'b T: ::core::ops::Add<Output = T>",
     "Self: Sized",
@@ -261,7 +261,7 @@ const WHERE_PREDS: &[&str] = &[
     "Option<Self>: Clone",
     "dyn A + B: Tr",
 ];
-const IDENTS: &[&str] = &[
+pub const IDENTS: &[&str] = &[
     "r#type", "r#match", "r#fn", "H", "this", "other", "state", "to_index", "_self_0", "_0",
     "__placeholder", "f", "source", "rhs", "lhs", "o", "self_", "donn\u{e9}es", "_x", "x", "X", "T",
     "N", "Output", "Target", "_eq", "_f", "Self_", "core", "std", "a", "Ordering", "Option",
